@@ -72,6 +72,11 @@ def materialise(case, root):
     st = case["st"]
     if st["R"] == "absent":
         return path
+    if case.get("link", "none") != "none":
+        # the path handed to Compose() is a symbolic link; the directory itself lives next to it
+        real = os.path.join(root, "real", "Fedora-22-20150522.0")
+        os.makedirs(real)
+        os.symlink(os.path.join("real", "Fedora-22-20150522.0") if case["link"] == "rel" else real, path)
     for d in ("R", "C", "L1", "L2"):
         if st[d] == "absent":
             continue
@@ -86,19 +91,20 @@ def materialise(case, root):
                     fh.write("}{ not json" if case["cibad"] else doc("info", i))
             n = case["names"]
             files = {}
-            if n in ("cur", "both", "mix_rl"):
+            if n in ("cur", "both", "mix_rl", "both_curbad", "both_legbad"):
                 files["images.json"] = ("images", i)
-            if n in ("cur", "both", "mix_il"):
+            if n in ("cur", "both", "mix_il", "both_curbad", "both_legbad"):
                 files["rpms.json"] = ("rpms", i)
-            if n in ("leg", "both", "mix_il"):
+            if n in ("leg", "both", "mix_il", "both_curbad", "both_legbad"):
                 files["image-manifest.json"] = ("images", i + 10)
-            if n in ("leg", "both", "mix_rl"):
+            if n in ("leg", "both", "mix_rl", "both_curbad", "both_legbad"):
                 files["rpm-manifest.json"] = ("rpms", i + 10)
             if n != "none":
                 files["modules.json"] = ("modules", i)
+            broken = {"both_curbad": CURRENT_NAMES, "both_legbad": ("image-manifest.json", "rpm-manifest.json")}.get(n, ())
             for name, (kind, respin) in files.items():
                 with open(os.path.join(md, name), "w") as fh:
-                    fh.write(content(kind, case["content"], respin))
+                    fh.write(content(kind, "notjson" if name in broken else case["content"], respin))
     return path
 
 
@@ -109,6 +115,8 @@ def evaluate(case):
     fails = []
     what = "layout %s names=%s content=%s cibad=%s slash=%s" % (json.dumps(case["st"], sort_keys=True), case["names"], case["content"],
                                                                 case["cibad"], case["slash"]) + (" reversed-access" if case.get("rev") else "")
+    if case.get("link", "none") != "none":
+        what += " given-as-symlink(%s target)" % case["link"]
     try:
         path = materialise(case, root)
         arg = path + ("/" if case["slash"] else "")
@@ -153,6 +161,10 @@ def _evaluate(case, what, root, path, arg, fails):
             return ["%s: Compose(path) raised %s: %s" % (what, type(exc).__name__, exc)]
         allowed = {os.path.normpath(os.path.join(path, SUB[d])): d for d in case["resolved"]}
         got = os.path.normpath(c.compose_path)
+        if case.get("link", "none") != "none":
+            # whether the library reports the link or what it points to is open: compare the places
+            allowed = {os.path.realpath(k): v for k, v in allowed.items()}
+            got = os.path.realpath(c.compose_path if os.path.isabs(c.compose_path) else os.path.join(os.path.dirname(path), c.compose_path))
         if http:
             base = "http://example.noexist/c/compose-dir"
             got = os.path.normpath(path + c.compose_path[len(base):]) if c.compose_path.startswith(base) else c.compose_path
@@ -173,6 +185,28 @@ def _evaluate(case, what, root, path, arg, fails):
                 out, err = "runtime", exc
             except Exception as exc:
                 fails.append("%s: .%s raised %s instead of RuntimeError: %s" % (what, kind, type(exc).__name__, exc))
+                continue
+            if e["out"] == "onebad":
+                # two candidate files, one undecodable: the library's preference (as it shows in the plain layout) decides
+                ref = _both_reference(kind)
+                if ref is None:
+                    continue
+                bad_is_current = e["bad"] in CURRENT_NAMES
+                good = [fn for fn in e["files"] if fn != e["bad"]][0]
+                if ref == bad_is_current:
+                    if out == "doc":
+                        fails.append("%s: .%s returned an object although the file the library prefers (%s) is undecodable - the content of "
+                                     "%s was served instead" % (what, kind, e["bad"], good))
+                    elif os.path.join(got, "metadata", e["bad"]) not in os.path.normpath(str(err)) and os.path.join(got, "metadata", e["bad"]) not in str(err):
+                        fails.append("%s: RuntimeError for undecodable %s does not name the file: %r" % (what, e["bad"], str(err)))
+                else:
+                    if out != "doc":
+                        fails.append("%s: .%s raised %s although the file the library prefers (%s) is valid" % (what, kind, err, good))
+                    else:
+                        direct = type(obj)()
+                        direct.load(os.path.join(got, "metadata", good))
+                        if obj.dumps() != direct.dumps():
+                            fails.append("%s: .%s differs from loading %s directly" % (what, kind, good))
                 continue
             if e["out"] == "doc":
                 if out != "doc":
